@@ -79,7 +79,7 @@ def ctr_factory_contract(name, route, cl=None):
         'icb': "%s.g_iv == old(spec.modes.ctr_block(%s['prefix'], %s['initial_value'], %d, %s['little_endian'], %s['suffix']))" % (P, ctr, ctr, cl, ctr, ctr),
         'layout': "%s.g_prefix_len == old(len(%s['prefix'])) and %s.g_counter_len == %d and %s.g_le == old(%s['little_endian'])" % (P, ctr, P, cl, P, ctr),
         'nonce_attr': "hasattr(result, 'nonce') == old(len(%s['suffix']) == 0) and (hasattr(result, 'nonce') ==> result.nonce == old(%s['prefix']))" % (ctr, ctr),
-        'counter_untouched': "len(%s) == 5 and %s['initial_value'] == old(%s['initial_value']) and %s['prefix'] == old(%s['prefix'])" % (ctr, ctr, ctr, ctr, ctr),
+        # (the caller's counter object is outside `modifies`: any write to it is a frame violation)
     })
     return Contract(Q, params={'factory': 'module:Crypto.Cipher.' + name, 'kwargs': shapes},
                     # domain: what Counter.new returns (its contract below): 0 <= initial_value < 256**counter_len
